@@ -7,6 +7,8 @@ import (
 	"flag"
 	"fmt"
 	"os"
+	rdebug "runtime/debug"
+	"runtime/pprof"
 	"sort"
 	"strconv"
 	"strings"
@@ -35,6 +37,13 @@ func main() {
 	if s := os.Getenv("VERIF_SEED"); s != "" {
 		seed, _ = strconv.Atoi(s)
 	}
+	if pf := os.Getenv("REDACTCHECK_PROF"); pf != "" {
+		if f, err := os.Create(pf); err == nil {
+			pprof.StartCPUProfile(f)
+			defer pprof.StopCPUProfile()
+		}
+	}
+	rdebug.SetGCPercent(800) // the analysis allocates many short-lived states; memory is not the constraint
 	start := time.Now()
 	defer func() {
 		if r := recover(); r != nil {
